@@ -1020,6 +1020,10 @@ def r3b(cx):
     F = cx.F
     fns = [k for k in F.bodies if k.endswith('SimpleCommand::first_word_is_keyword')]
     cx.require(len(fns) == 1, 'first_word_is_keyword not found')
+    _r3b_decide(cx, F, fns)
+
+
+def _r3b_decide(cx, F, fns):
     b = F.bodies[fns[0]]
     cx.fn(b.fn)
     du = Q.DefUse(b)
@@ -1042,6 +1046,13 @@ def r3b(cx):
                 if src is not None and Q.callee_is(src, [Q.re.compile(r'::first$'), Q.re.compile(r'::to_string_if_literal$'),
                                                           Q.re.compile(r'::get$'), Q.re.compile(r'::first_mut$')]):
                     ok = True
+            # "from the keyword table": the lookup result (a Result<Keyword, _>) is known to be Err on this path
+            if org['k'] == 'discr' and lab == ('variant', 'Err') and org['ty'].lstrip('&').startswith('core::result::Result<' + KW + ','):
+                ok = True
+            if org['k'] == 'call' and (org['t'].get('at') or [''])[0].lstrip('&').startswith('core::result::Result<' + KW + ',') and \
+                    ((Q.callee_is(org['t'], [Q.re.compile(r'^core::result::Result::<T, E>::is_err$')]) and lab == ('bool', True)) or
+                     (Q.callee_is(org['t'], [Q.re.compile(r'^core::result::Result::<T, E>::is_ok$')]) and lab == ('bool', False))):
+                ok = True
             if org['k'] == 'binop' and org['rv']['op'] in ('Gt', 'Ge', 'Lt', 'Le'):
                 a_, b_ = org['rv']['a'], org['rv']['b']
                 consts = [(i, o) for i, o in enumerate((a_, b_)) if 'c' in o or 'cdef' in o]
@@ -1164,5 +1175,240 @@ def r2b(cx):
                      loc='%s:%s' % (h['file'], arm['body'].get('line') or h['line']))
 
 
+# ---------------------------------------------------------------- R5: every keyword counts
+# A small path-sensitive evaluation of the MIR of first_word_is_keyword under the hypothesis "the keyword table recognised the
+# word" (the lookup returned Ok(k), k unknown). Abstract values: True / False, ('Ok', payload), ('Some', payload), ('None',),
+# ('ref', v), ('discr', variant name), ('closure', def), ('?', why) = not determined by the hypothesis.
+_R5_STD = r'core::(?:result::Result::<T, E>|option::Option::<T>)::'
+_R5_KEEP = re.compile(_R5_STD + r'(as_ref|as_mut|as_deref|as_deref_mut|copied|cloned|map_err|inspect|inspect_err|or|or_else|ok|iter)$')
+_R5_PAYLOAD = re.compile(_R5_STD + r'(unwrap|expect|unwrap_or|unwrap_or_else|unwrap_or_default|unwrap_unchecked)$')
+
+
+def _r5_unknown(v):
+    return v is None or (isinstance(v, tuple) and v and v[0] == '?')
+
+
+def _r5_closure_const(F, v):
+    """The constant bool a closure returns on all its paths, or None."""
+    if not (isinstance(v, tuple) and v[0] == 'closure'):
+        return None
+    cb = F.bodies.get(v[1])
+    if cb is None:
+        return None
+    vals = set()
+    for b, j, s in cb.stmts():
+        if s['k'] == 'assign' and s['lhs']['l'] == 0:
+            rv = s['rv']
+            c = str(rv['o'].get('c')) if rv['k'] == 'use' and 'c' in rv['o'] and not s['lhs'].get('p') else None
+            vals.add(c)
+    for b, t in cb.calls():
+        if t['dest']['l'] == 0:
+            vals.add(None)
+    if vals == {'true'}:
+        return True
+    if vals == {'false'}:
+        return False
+    return None
+
+
+def _r5_paths(cx, F, body, is_lookup, limit=50000):
+    """Enumerate the paths of `body` from its entry; the destination of a lookup call is assumed to be Ok(unknown keyword).
+    Returns [(value of the return place, path, state)] for the paths that passed a lookup and return."""
+    def place_val(st, p):
+        v = st.get(p['l'])
+        for e in p.get('p') or []:
+            if e == '*':
+                v = v[1] if isinstance(v, tuple) and v and v[0] == 'ref' else None
+            elif isinstance(e, dict) and 'v' in e:
+                v = v if isinstance(v, tuple) and v and v[0] == e['v'] else None
+            elif isinstance(e, dict) and 'f' in e:
+                v = v[1] if isinstance(v, tuple) and len(v) == 2 and v[0] in ('Ok', 'Some') and e['f'] in (0, '0') else None
+            else:
+                v = None
+        return v
+
+    def operand_val(st, o):
+        if 'cp' in o or 'mv' in o:
+            return place_val(st, o.get('cp') or o.get('mv'))
+        c = str(o.get('c'))
+        if o.get('ty') == 'bool' and c in ('true', 'false'):
+            return c == 'true'
+        return None
+
+    def rvalue_val(st, rv, where):
+        k = rv['k']
+        if k == 'use':
+            return operand_val(st, rv['o'])
+        if k == 'ref':
+            return ('ref', place_val(st, rv['pl']))
+        if k == 'unop' and rv.get('op') == 'Not':
+            v = operand_val(st, rv['o'])
+            return (not v) if isinstance(v, bool) else ('?', 'a negated condition at %s' % where)
+        if k == 'binop' and rv.get('op') in ('Eq', 'Ne', 'BitAnd', 'BitOr', 'BitXor'):
+            a, b = operand_val(st, rv['a']), operand_val(st, rv['b'])
+            if isinstance(a, bool) and isinstance(b, bool):
+                return {'Eq': a == b, 'Ne': a != b, 'BitAnd': a and b, 'BitOr': a or b, 'BitXor': a != b}[rv['op']]
+            return ('?', 'a comparison at %s' % where)
+        if k == 'discr':
+            v = place_val(st, rv['pl'])
+            if isinstance(v, tuple) and v and v[0] in ('Ok', 'Some', 'None'):
+                return ('discr', v[0])
+            return None
+        if k == 'agg' and rv.get('ak') == 'closure':
+            return ('closure', rv.get('def'))
+        if k == 'cast':
+            return operand_val(st, rv['o'])
+        return None
+
+    def call_val(st, t, where):
+        name = t['f'].get('def') or t['f'].get('decl') or '?'
+        if is_lookup(t):
+            return ('Ok', None) if (t.get('dty') or '').startswith('core::result::Result<') else ('?', 'the result of the lookup at %s' % where)
+        args = [operand_val(st, a) for a in t['a']]
+        a0 = args[0] if args else None
+        if isinstance(a0, tuple) and a0 and a0[0] == 'ref':
+            a0 = a0[1]
+        known = isinstance(a0, tuple) and a0 and a0[0] in ('Ok', 'Some', 'None')
+        m = re.search(_R5_STD + r'(\w+)$', name)
+        if known and m:
+            meth, var = m.group(1), a0[0]
+            if meth in ('is_ok', 'is_some'):
+                return var != 'None'
+            if meth in ('is_err', 'is_none'):
+                return var == 'None'
+            if meth == 'err':
+                return ('None',)
+            if _R5_KEEP.search(name):
+                return ('Some', a0[1]) if (meth in ('ok',) and var == 'Ok') else a0
+            if var == 'None':
+                return ('?', 'the result of %s at %s' % (H.short(name), where))
+            if meth in ('is_ok_and', 'is_some_and', 'is_none_or') and len(args) > 1:
+                c = _r5_closure_const(F, args[1])
+                return c if c is not None else ('?', 'the predicate given to %s at %s' % (meth, where))
+            if meth == 'is_err_and':
+                return False
+            if meth in ('map_or', 'map_or_else') and len(args) > 2:
+                c = _r5_closure_const(F, args[2])
+                return c if c is not None else ('?', 'the closure given to %s at %s' % (meth, where))
+            if meth in ('map', 'and_then', 'filter') and len(args) > 1:
+                c = _r5_closure_const(F, args[1])
+                if meth == 'map':
+                    return (var, c)
+                return ('?', 'the closure given to %s at %s' % (meth, where))
+            if _R5_PAYLOAD.search(name):
+                return a0[1] if not _r5_unknown(a0[1]) else ('?', 'the keyword found (unwrapped at %s)' % where)
+        return ('?', 'the result of %s at %s' % (H.short(name), where))
+
+    out = []
+    seen = set()
+    stack = [(0, {}, (0,))]
+    steps = 0
+    while stack:
+        b, st, path = stack.pop()
+        steps += 1
+        cx.require(steps < limit, 'path enumeration of %s does not terminate' % body.fn)
+        key = (b, tuple(sorted((k, repr(v)) for k, v in st.items())))
+        if key in seen:
+            continue
+        seen.add(key)
+        st = dict(st)
+        blk = body.blocks[b]
+        for s in blk['s']:
+            if s['k'] == 'assign':
+                v = rvalue_val(st, s['rv'], body.loc(s))
+                if not s['lhs'].get('p'):
+                    st[s['lhs']['l']] = v
+                elif s['lhs']['p'][0] != '*':
+                    st[s['lhs']['l']] = None
+            elif s['k'] == 'setdiscr':
+                st[s['lhs']['l']] = None
+        t = blk['t']
+        k = t['k']
+        if k == 'return':
+            if st.get(-1):
+                out.append((st.get(0), path, st))
+            continue
+        if k == 'call':
+            v = call_val(st, t, body.loc(t))
+            if is_lookup(t):
+                st[-1] = True
+            if not t['dest'].get('p'):
+                st[t['dest']['l']] = v
+            else:
+                st[t['dest']['l']] = None
+            if t.get('to') is not None:
+                stack.append((t['to'], st, path + (t['to'],)))
+            continue
+        if k == 'switch':
+            v = operand_val(st, t['d'])
+            tgt = None
+            if isinstance(v, bool):
+                hit = [x[1] for x in t['ts'] if x[0] == int(v)]
+                tgt = hit[0] if hit else t['else']
+            elif isinstance(v, tuple) and v and v[0] == 'discr':
+                idx = {'None': 0, 'Some': 1, 'Ok': 0, 'Err': 1}[v[1]]
+                hit = [x[1] for x in t['ts'] if x[0] == idx]
+                tgt = hit[0] if hit else t['else']
+            for s2 in ([tgt] if tgt is not None else body.succ(b)):
+                stack.append((s2, st, path + (s2,)))
+            continue
+        for s2 in body.succ(b):
+            stack.append((s2, st, path + (s2,)))
+    return out
+
+
+@RS.rule('C06.R5', 'K-GUARD', 'first_word_is_keyword answers `true` for EVERY word the keyword table recognises: once Keyword::from_str has '
+         'succeeded, no further condition (on which keyword it is, or on anything else) stands between the lookup and `true`')
+def r5(cx):
+    F = cx.F
+    fns = [k for k in F.bodies if k.endswith('SimpleCommand::first_word_is_keyword')]
+    cx.require(len(fns) == 1, 'first_word_is_keyword not found')
+    _r5_decide(cx, F, fns)
+
+
+def _r5_decide(cx, F, fns):
+    body = F.inlined(fns[0])
+    cx.fn(body.fn)
+    for f_ in getattr(body, 'inlined_from', []):
+        cx.fn(f_)
+
+    def is_lookup(t):
+        # a call that turns text into a Keyword: its result type is Result<Keyword, _> / Option<Keyword> and it is not an adaptor of
+        # Result / Option itself (str::parse::<Keyword>, <Keyword as FromStr>::from_str, TryFrom<&str>, a lookup helper)
+        dty = t.get('dty') or ''
+        if not (dty.startswith('core::result::Result<' + KW + ',') or dty == 'core::option::Option<' + KW + '>'):
+            return False
+        return not re.match(r'^<?core::(result::Result|option::Option)\b', t['f'].get('def') or t['f'].get('decl') or '')
+    lookups = [(b, t) for b, t in body.calls() if is_lookup(t)]
+    cx.site('first_word_is_keyword: keyword table lookup (str -> Result<Keyword, _>) x%d%s'
+            % (len(lookups), (' at ' + body.loc(lookups[0][1])) if lookups else ''))
+    if not lookups:
+        cx.violation(fns[0], 'no-table-lookup', 'first_word_is_keyword does not look the first word up in the keyword table '
+                     '(Keyword::from_str): which words count as reserved is no longer decided by the table the parser uses', loc=body.loc(body.d))
+        return
+    for b, t in lookups:
+        cx.require((t.get('dty') or '').startswith('core::result::Result<'), 'the keyword lookup does not return a Result')
+        cx.require(any(re.match(r'^&?(mut )?(str|alloc::string::String)$', x) for x in t.get('at') or []), 'the keyword lookup does not take a string')
+    results = _r5_paths(cx, F, body, is_lookup)
+    cx.site('first_word_is_keyword: %d path(s) return after a successful lookup; answers: %s'
+            % (len(results), sorted({repr(v) if not _r5_unknown(v) else 'undetermined' for v, _, _ in results})))
+    if not results:
+        cx.violation(fns[0], 'no-answer-after-lookup', 'no path returns after the keyword table has recognised the word', loc=body.loc(lookups[0][1]))
+        return
+    bad = [(v, p) for v, p, _ in results if v is not True]
+    if bad:
+        v, p = sorted(bad, key=lambda x: (x[0] is not False, len(x[1])))[0]
+        what = 'answers `false`' if v is False else 'lets the answer depend on %s' % (v[1] if isinstance(v, tuple) and v[0] == '?' else 'a value the lookup does not determine')
+        cx.violation(fns[0], 'keyword-not-counted', 'after the keyword table has recognised the first word, first_word_is_keyword %s: for the '
+                     'reserved words excluded that way (e.g. the clause delimiters then do done fi else elif esac }) a simple command such as '
+                     '`2>&1 fi` or `>/dev/null done` is printed words-first (`fi 2>&1`), where the word is read as the reserved word again: '
+                     'the printed text is a syntax error or a different command' % what,
+                     loc=body.loc(body.term(p[-1])) if v is False else body.loc(lookups[0][1]), path=Q.render_path(body, list(p)))
+
+
+RS.rules.sort(key=lambda r: r.id)
+
+
 # --- explanation addendum (generated catalogue in DESIGN.md reads RS.explanation)
 RS.explanation += ' Added later: the raw text of a command substitution is printed verbatim (R2b).'
+RS.explanation += ' (R5) first_word_is_keyword is evaluated path by path under the hypothesis that the keyword-table lookup returned Ok(unknown keyword): every path must return the constant true, so no further condition narrows the set of reserved words that are printed redirections-first; (R3b) also accepts `false` where the lookup result is known to be Err.'
